@@ -18,6 +18,9 @@ Fresh, FreshCookiesOpen) is
      half of the behaviours with the real SCIONClient instead (same-AS empty path, the proxy as
      next hop, the lane's SCION listener answering), for which the network may also deliver
      SCMP messages to the waiting client before / instead of the genuine reply (action Scmp);
+     the server answers each request in an NTP header state (ServerHandle(h): synchronised, or unsynchronised -
+     leap indicator 3 / stratum 0 / 16): an authentic reply whose cookies the client stores before it refuses
+     the measurement - loss-free operation as far as the pool clauses are concerned;
  (3) used by spec/trace/NtsCookiesTrace.tla to validate every recorded event
      (monitor = the property section on the recorded states/steps -> VIOLATION;
       strict  = each step is the one NtsCookies takes -> DRIFT).
@@ -226,10 +229,12 @@ def run(ctx):
     for b in cases:
         gstat.update(b.pop("stat"))
     gstat.pop("had1", None)
+    gstat.pop("lastun", None)
     gstat["late"] = gstat["same"] - gstat["dup"]
     lacking = [k for k in ("same", "before", "dup", "late", "other", "second", "stray", "oldserve", "span1",
                            "span2", "oldprobe", "sx", "sxstore", "sxrekey", "scmp", "scmpbefore", "scmpinstead",
-                           "scmpmixed", "scmpsecond") if not gstat[k]]
+                           "scmpmixed", "scmpsecond", "unsync", "unclean", "unrun", "unthen", "unlow",
+                           "unli3", "unstr0", "unstr16", "unscion") if not gstat[k]]
     if lacking:
         raise vlib.Inconclusive("generated schedules never exercise: %s (%s)" % (lacking, dict(gstat)))
     ctx.notes.append(
@@ -249,6 +254,16 @@ def run(ctx):
         "genuine was on its way, %d in an exchange that also saw an earlier reply, %d that ended the call)"
         % (nsc, len(cases), gstat["sx"], gstat["sxstore"], gstat["sxrekey"], gstat["scmp"], gstat["scmpbefore"],
            gstat["scmpinstead"], gstat["scmpmixed"], gstat["scmpsecond"]))
+    ctx.notes.append(
+        "NTP header state dimension (spec side): the server answers each request as a synchronised or as an unsynchronised "
+        "server (leap indicator 3 / stratum 0 / stratum 16; authentic reply, nothing lost); of the %d generated behaviours "
+        "%d contain such a reply; %d of these replies are taken in by the client (cookies stored by ProcessResponse, then the "
+        "call refused by ValidateResponseMetadata): %d LI=3, %d stratum 0, %d stratum 16; %d in a history that is loss-free "
+        "so far (judged by StaysFull), %d directly following another one (runs), %d followed directly by a successful "
+        "exchange, %d answering a request with placeholders (pool below eight), %d by the SCION client; %d more were lost "
+        "on the way" % (len(cases), sum(1 for b in cases if any(o.get("hdr", "sync") != "sync" for o in b["ops"])),
+                         gstat["unsync"], gstat["unli3"], gstat["unstr0"], gstat["unstr16"], gstat["unclean"], gstat["unrun"],
+                         gstat["unthen"], gstat["unlow"], gstat["unscion"], gstat["unlost"]))
     cp = ctx.path("cases.ndjson")
     vlib.write_ndjson(cp, cases)
     ctx.log("schedules: %d random walks (biases %s, clients %s) + %d exhaustive short ones + %d of the SCION client" %
@@ -324,6 +339,14 @@ def run(ctx):
                 lost = True
             elif e["ev"] == "done":
                 scmp_then_genuine += sm and not lost and n == 1
+    # replies of an unsynchronised server on the wire, and those handed to the client with nothing lost or
+    # delivered before them (facts about the environment)
+    unsync_rep = sum(1 for e in events if e["ev"] == "rep" and e["hdr"] != "sync")
+    unsync_first = 0
+    for b in behs:
+        for i, e in enumerate(b):
+            if e["ev"] == "rep" and e["hdr"] != "sync" and not e["bad"] and i + 1 < len(b) and b[i + 1]["ev"] == "done":
+                unsync_first += 1
     need = dict(req=cnt["req"], rep=cnt["rep"], losereq=cnt["losereq"], loseresp=cnt["loseresp"],
                 norep=cnt["norep"], tick=cnt["tick"], rekey=cnt["rekey"], probe=cnt["probe"],
                 stale=cnt["stale"], stray=cnt["stray"], stale_then_genuine_delivered=stale_then_genuine,
@@ -331,7 +354,8 @@ def run(ctx):
                 rotated_replies=rotated, requests_under_retired_key=retired,
                 scion_client_requests=scion_req, scion_client_rekeys=scion_rekey, scmp=cnt["scmp"],
                 scmp_unreach=scmp_types["unreach"], scmp_echorep=scmp_types["echorep"], scmp_param=scmp_types["param"],
-                scmp_then_genuine_delivered=scmp_then_genuine)
+                scmp_then_genuine_delivered=scmp_then_genuine,
+                unsync_replies=unsync_rep, unsync_replies_handed_over_first=unsync_first)
     ctx.log("coverage: %s; %d exchanges succeeded after an earlier reply had been delivered first; live pool levels %s, function-level pool levels %s, behaviours with re-keying %d, "
             "panics %d, probe sizes %s x unique-id lengths %s (%d replies capped because of the identifier); "
             "%d probes of the SCION listener (%d answered well, %d after a key rotation)" %
@@ -425,7 +449,8 @@ def run(ctx):
         for i, e in enumerate(b):
             if e["ev"] == "req":
                 kinds.add((e["p"], e["fn"], outcome(i, b), e["kv"], e["cookie"]["key"],
-                           sum(1 for x in b[i + 1:i + 6] if x["ev"] == "stale")))
+                           sum(1 for x in b[i + 1:i + 6] if x["ev"] == "stale"),
+                           next((x["hdr"] for x in b[i + 1:i + 4] if x["ev"] == "rep"), "")))
             elif e["ev"] == "panic":
                 kinds.add((e["p"], e["fn"], "panic"))
             elif e["ev"] == "probe":
@@ -436,7 +461,8 @@ def run(ctx):
         rule="exchanges of the real IPClient or (about half of the behaviours) the real SCIONClient (same-AS empty path, "
              "answered by the live SCION listener) with the NTS-KE/NTP servers through the recording proxy under TLC-generated "
              "schedules (random walks with loss bias 0..5, clock jumps of 12h..3d, earlier replies of the server "
-             "delivered to the waiting client before / instead of / after the genuine one, for the SCION client also SCMP "
+             "delivered to the waiting client before / instead of / after the genuine one, the server answering some requests as an "
+             "unsynchronised server (authentic replies with leap indicator 3 / stratum 0 / stratum 16), for the SCION client also SCMP "
              "messages (destination unreachable / echo reply / parameter problem) delivered while its request is pending, "
              "foreign requests with 1..12 "
              "fields, unique identifiers of 32..320 bytes and cookies under any key the provider holds; all schedules of 3-4 exchanges "
@@ -463,6 +489,9 @@ def run(ctx):
         "harness (unauthenticated, quoting the client's packet); no DRKey authentication (Auth.Enabled off)",
         "MeasureClockOffsetSCION reports a failed measurement as a zero result: success = non-zero timestamp; after a failure "
         "the client's pool is read only when every goroutine the call started has ended (runtime goroutine snapshot)",
+        "the unsynchronised server is played by the proxy: it takes the listener's authentic reply (same unique identifier, "
+        "timestamps and cookies), sets leap indicator 3 / stratum 0 / stratum 16 and seals it with the association's S2C key "
+        "(AES-SIV, fresh nonce) - the project's own server always answers stratum 1, leap indicator 0",
         "loopback, one client per server; losses are those of the schedule (a silent server is asked again before "
         "'no reply' is recorded)",
         "small scope for the exhaustive TLC runs: clock horizon of 4-6 days in 12 h units, jumps from a fixed set",
